@@ -9,12 +9,14 @@
 (*       refers / casc   dependent -> target  ( `refers`, cascade_deleted )  *)
 (*       member[g] static members, rdmo[x] recycled_directmemberof            *)
 (*     history (what L1 needs to remember about the past, kept beside s):    *)
-(*       h = [del, ts, want, dep, rf]                                        *)
+(*       h = [del, ts, want, dep, rf, dm]                                    *)
 (*       del[x]  time x entered the recycle bin;  ts[x] time it was          *)
 (*               tombstoned;  want[x] static groups that listed x when it    *)
 (*               was deleted and have been live ever since;  dep[x] the      *)
 (*               dependents that were cascade-deleted with x;  rf[x] the     *)
-(*               `refers` x still held right after it entered the bin         *)
+(*               `refers` x still held right after it entered the bin;       *)
+(*               dm[x] its stored directmemberof when it was deleted          *)
+(*               (s.dmo, used only to classify a failing revive)              *)
 (* L1  the lifecycle as stated: visibility; Recycled -> Tombstone only      *)
 (*     after RMax, Tombstone -> gone only after CMax, tombstones never come  *)
 (*     back; a successful revive returns the entry, its cascade-deleted     *)
@@ -103,6 +105,8 @@ Hist(h, s, t) ==
    want |-> [x \in s.ids |-> IF t.lv[x] = "recycled" /\ s.lv[x] = "live"
                              THEN {g \in s.grp : s.lv[g] = "live" /\ t.lv[g] = "live" /\ x \in s.member[g]}
                              ELSE IF t.lv[x] = "recycled" THEN {g \in h.want[x] : t.lv[g] = "live"} ELSE {}],
+   dm   |-> [x \in s.ids |-> IF t.lv[x] = "recycled" /\ s.lv[x] = "live" THEN s.dmo[x]
+                             ELSE IF t.lv[x] = "recycled" THEN h.dm[x] ELSE {}],
    rf   |-> [x \in s.ids |-> IF t.lv[x] = "recycled" /\ s.lv[x] = "live" THEN t.refers[x]
                              ELSE IF t.lv[x] = "recycled" THEN h.rf[x] ELSE {}],
    dep  |-> [x \in s.ids |-> IF t.lv[x] = "recycled" /\ s.lv[x] = "live"
